@@ -16,12 +16,12 @@
      None) and one further LF / CRLF is absorbed.
    NO proofs in this file. *)
 From Coq Require Import List NArith Bool Strings.String.
-From V Require Import Base.Bytes Base.Res.
+From V Require Import Base.Bytes Base.Res Gen.FrontMatterGen.
 Import ListNotations.
 Local Open Scope string_scope.
 Local Open Scope list_scope.
 
-Definition fm_bom : bytes := [xef; xbb; xbf].     (* U+FEFF in UTF-8 *)
+Definition fm_bom : bytes := fm_bom_lit.     (* the literal in the code, regenerated: U+FEFF in UTF-8 *)
 Definition fm_lf : bytes := [x0a].
 Definition fm_crlf : bytes := [x0d; x0a].
 
